@@ -70,6 +70,12 @@ func genC12(t *rapid.T) C12Case {
 			ids[1] = []string{".tmp-", "tmp", "#", ".#", "_"}[uniformN(t, 5, "prefix")] + ids[0]
 		}
 	}
+	if chancePct(t, 12, "longid") {
+		// a session id near the longest file name the file system takes (255 bytes for the
+		// record's name): scratch names derived from the record's name no longer fit
+		k := uniformN(t, n, "longidwho")
+		ids[k] = ids[k] + strings.Repeat("x", []int{225, 232, 236, 238, 240, 241, 242, 243}[uniformN(t, 8, "longidlen")])
+	}
 	c.Sessions = ids[:n]
 	for i := 0; i < n; i++ {
 		h := GenHistory(t, a, HistOpts{MaxLen: 5, Junk: true})
